@@ -1,5 +1,539 @@
 V = 'verifier/verifier.go'
 H = 'verifier/helpers.go'
+
+# ---------------------------------------------------------------------------------------------------------------------------
+# second pass. Building blocks: the whole of verifyAuthenticity and the load block of processSignature are replaced.
+VA_FN = """func verifyAuthenticity(trustCerts []*x509.Certificate, outcome *notation.VerificationOutcome) *notation.ValidationResult {
+	if len(trustCerts) < 1 {
+		return &notation.ValidationResult{
+			Error:  notation.ErrorVerificationInconclusive{Msg: "no trusted certificates are found to verify authenticity"},
+			Type:   trustpolicy.TypeAuthenticity,
+			Action: outcome.VerificationLevel.Enforcement[trustpolicy.TypeAuthenticity],
+		}
+	}
+	_, err := signature.VerifyAuthenticity(&outcome.EnvelopeContent.SignerInfo, trustCerts)
+	if err != nil {
+		switch err.(type) {
+		case *signature.SignatureAuthenticityError:
+			return &notation.ValidationResult{
+				Error:  err,
+				Type:   trustpolicy.TypeAuthenticity,
+				Action: outcome.VerificationLevel.Enforcement[trustpolicy.TypeAuthenticity],
+			}
+		default:
+			return &notation.ValidationResult{
+				Error:  notation.ErrorVerificationInconclusive{Msg: "authenticity verification failed with error : " + err.Error()},
+				Type:   trustpolicy.TypeAuthenticity,
+				Action: outcome.VerificationLevel.Enforcement[trustpolicy.TypeAuthenticity],
+			}
+		}
+	}
+
+	return &notation.ValidationResult{
+		Type:   trustpolicy.TypeAuthenticity,
+		Action: outcome.VerificationLevel.Enforcement[trustpolicy.TypeAuthenticity],
+	}
+}
+"""
+LOAD_BLOCK = """	trustCerts, err := loadX509TrustStores(ctx, outcome.EnvelopeContent.SignerInfo.SignedAttributes.SigningScheme, policyName, trustStores, v.trustStore)
+	var authenticityResult *notation.ValidationResult
+	if err != nil {
+		authenticityResult = &notation.ValidationResult{
+			Error:  err,
+			Type:   trustpolicy.TypeAuthenticity,
+			Action: outcome.VerificationLevel.Enforcement[trustpolicy.TypeAuthenticity],
+		}
+	} else {
+		// verify authenticity
+		authenticityResult = verifyAuthenticity(trustCerts, outcome)
+	}
+"""
+CTOR = """
+func newValidationResult(outcome *notation.VerificationOutcome, resultType trustpolicy.ValidationType, err error) *notation.ValidationResult {
+	return &notation.ValidationResult{
+		Error:  err,
+		Type:   resultType,
+		Action: outcome.VerificationLevel.Enforcement[resultType],
+	}
+}
+"""
+# constructor with the parameters in another order, filled in field by field, and a second one delegating to it
+CTOR2 = """
+func makeResult(err error, resultType trustpolicy.ValidationType, outcome *notation.VerificationOutcome) *notation.ValidationResult {
+	r := new(notation.ValidationResult)
+	r.Type = resultType
+	r.Action = outcome.VerificationLevel.Enforcement[resultType]
+	r.Error = err
+	return r
+}
+
+func authenticityResultOf(outcome *notation.VerificationOutcome, err error) *notation.ValidationResult {
+	return makeResult(err, trustpolicy.TypeAuthenticity, outcome)
+}
+"""
+LOAD_CTOR = """	trustCerts, err := loadX509TrustStores(ctx, outcome.EnvelopeContent.SignerInfo.SignedAttributes.SigningScheme, policyName, trustStores, v.trustStore)
+	var authenticityResult *notation.ValidationResult
+	if err != nil {
+		authenticityResult = newValidationResult(outcome, trustpolicy.TypeAuthenticity, err)
+	} else {
+		// verify authenticity
+		authenticityResult = verifyAuthenticity(trustCerts, outcome)
+	}
+"""
+# multi-exit, results by constructor (the shape of benign2/out-C02/2)
+VA_CTOR_MULTI = """func verifyAuthenticity(trustCerts []*x509.Certificate, outcome *notation.VerificationOutcome) *notation.ValidationResult {
+	if len(trustCerts) < 1 {
+		return newValidationResult(outcome, trustpolicy.TypeAuthenticity, notation.ErrorVerificationInconclusive{Msg: "no trusted certificates are found to verify authenticity"})
+	}
+	_, err := signature.VerifyAuthenticity(&outcome.EnvelopeContent.SignerInfo, trustCerts)
+	if err != nil {
+		if _, ok := err.(*signature.SignatureAuthenticityError); !ok {
+			err = notation.ErrorVerificationInconclusive{Msg: "authenticity verification failed with error : " + err.Error()}
+		}
+		return newValidationResult(outcome, trustpolicy.TypeAuthenticity, err)
+	}
+	return newValidationResult(outcome, trustpolicy.TypeAuthenticity, nil)
+}
+"""
+# single exit, type switch with a nil arm (the shape of benign2/out-C01/2)
+VA_CTOR_SINGLE = """func verifyAuthenticity(trustCerts []*x509.Certificate, outcome *notation.VerificationOutcome) *notation.ValidationResult {
+	if len(trustCerts) < 1 {
+		return newValidationResult(outcome, trustpolicy.TypeAuthenticity, notation.ErrorVerificationInconclusive{Msg: "no trusted certificates are found to verify authenticity"})
+	}
+	_, err := signature.VerifyAuthenticity(&outcome.EnvelopeContent.SignerInfo, trustCerts)
+	switch err.(type) {
+	case nil:
+	case *signature.SignatureAuthenticityError:
+	default:
+		err = notation.ErrorVerificationInconclusive{Msg: "authenticity verification failed with error : " + err.Error()}
+	}
+	return newValidationResult(outcome, trustpolicy.TypeAuthenticity, err)
+}
+"""
+# one exit for everything: error local, the empty set included; delegating constructor with another parameter order
+VA_CTOR2_ONE_EXIT = """func verifyAuthenticity(trustCerts []*x509.Certificate, outcome *notation.VerificationOutcome) *notation.ValidationResult {
+	var failure error
+	if len(trustCerts) == 0 {
+		failure = notation.ErrorVerificationInconclusive{Msg: "no trusted certificates are found to verify authenticity"}
+	} else if _, err := signature.VerifyAuthenticity(&outcome.EnvelopeContent.SignerInfo, trustCerts); err != nil {
+		failure = err
+		if _, ok := err.(*signature.SignatureAuthenticityError); !ok {
+			failure = notation.ErrorVerificationInconclusive{Msg: "authenticity verification failed with error : " + err.Error()}
+		}
+	}
+	return authenticityResultOf(outcome, failure)
+}
+"""
+# one exit, composite literal, error local
+VA_LIT_ONE_EXIT = """func verifyAuthenticity(trustCerts []*x509.Certificate, outcome *notation.VerificationOutcome) *notation.ValidationResult {
+	var failure error
+	if len(trustCerts) < 1 {
+		failure = notation.ErrorVerificationInconclusive{Msg: "no trusted certificates are found to verify authenticity"}
+	} else if _, err := signature.VerifyAuthenticity(&outcome.EnvelopeContent.SignerInfo, trustCerts); err != nil {
+		failure = err
+		if _, ok := err.(*signature.SignatureAuthenticityError); !ok {
+			failure = notation.ErrorVerificationInconclusive{Msg: "authenticity verification failed with error : " + err.Error()}
+		}
+	}
+	return &notation.ValidationResult{
+		Error:  failure,
+		Type:   trustpolicy.TypeAuthenticity,
+		Action: outcome.VerificationLevel.Enforcement[trustpolicy.TypeAuthenticity],
+	}
+}
+"""
+# the chain check lives in a helper of verifyAuthenticity (extraction cut below the result building)
+VA_CHAIN_HELPER = """func chainError(signerInfo *signature.SignerInfo, roots []*x509.Certificate) error {
+	_, err := signature.VerifyAuthenticity(signerInfo, roots)
+	return err
+}
+
+func verifyAuthenticity(trustCerts []*x509.Certificate, outcome *notation.VerificationOutcome) *notation.ValidationResult {
+	if len(trustCerts) < 1 {
+		return newValidationResult(outcome, trustpolicy.TypeAuthenticity, notation.ErrorVerificationInconclusive{Msg: "no trusted certificates are found to verify authenticity"})
+	}
+	err := chainError(&outcome.EnvelopeContent.SignerInfo, trustCerts)
+	if err != nil {
+		if _, ok := err.(*signature.SignatureAuthenticityError); !ok {
+			err = notation.ErrorVerificationInconclusive{Msg: "authenticity verification failed with error : " + err.Error()}
+		}
+	}
+	return newValidationResult(outcome, trustpolicy.TypeAuthenticity, err)
+}
+"""
+# the authenticity step as a method of its own (the shape of benign2/out-C03/2 and benign/out-C02/1)
+STEP_CALL = "\tauthenticityResult := v.verifyTrustStoreAuthenticity(ctx, policyName, trustStores, outcome)\n"
+STEP_FN = """
+func (v *verifier) verifyTrustStoreAuthenticity(ctx context.Context, policyName string, trustStores []string, outcome *notation.VerificationOutcome) *notation.ValidationResult {
+	scheme := outcome.EnvelopeContent.SignerInfo.SignedAttributes.SigningScheme
+	trustCerts, err := loadX509TrustStores(ctx, scheme, policyName, trustStores, v.trustStore)
+	if err != nil {
+		return &notation.ValidationResult{
+			Error:  err,
+			Type:   trustpolicy.TypeAuthenticity,
+			Action: outcome.VerificationLevel.Enforcement[trustpolicy.TypeAuthenticity],
+		}
+	}
+	return verifyAuthenticity(trustCerts, outcome)
+}
+"""
+# the extraction cut higher: one method for load + verify + bookkeeping, taking everything it needs as parameters in another order
+STEP2_CALL = "\tauthenticityResult := authenticate(ctx, outcome, v.trustStore, trustStores, policyName)\n"
+STEP2_FN = """
+func authenticate(ctx context.Context, outcome *notation.VerificationOutcome, x509TrustStore truststore.X509TrustStore, stores []string, statementName string) *notation.ValidationResult {
+	roots, loadErr := trustedRoots(ctx, outcome, x509TrustStore, stores, statementName)
+	if loadErr == nil {
+		return verifyAuthenticity(roots, outcome)
+	}
+	return &notation.ValidationResult{
+		Error:  loadErr,
+		Type:   trustpolicy.TypeAuthenticity,
+		Action: outcome.VerificationLevel.Enforcement[trustpolicy.TypeAuthenticity],
+	}
+}
+
+func trustedRoots(ctx context.Context, outcome *notation.VerificationOutcome, x509TrustStore truststore.X509TrustStore, stores []string, statementName string) ([]*x509.Certificate, error) {
+	return loadX509TrustStores(ctx, outcome.EnvelopeContent.SignerInfo.SignedAttributes.SigningScheme, statementName, stores, x509TrustStore)
+}
+"""
+# a forwarding layer that wraps the error
+FWD_WRAP = """
+func trustedRoots(ctx context.Context, outcome *notation.VerificationOutcome, x509TrustStore truststore.X509TrustStore, stores []string, statementName string) ([]*x509.Certificate, error) {
+	roots, err := loadX509TrustStores(ctx, outcome.EnvelopeContent.SignerInfo.SignedAttributes.SigningScheme, statementName, stores, x509TrustStore)
+	if err != nil {
+		return nil, fmt.Errorf("trust stores of statement %q: %w", statementName, err)
+	}
+	return roots, nil
+}
+"""
+STEP2_FN_WRAP = STEP2_FN[:STEP2_FN.index('\nfunc trustedRoots')] + FWD_WRAP
+# the load kept in a closure of processSignature
+LOAD_CLOSURE = """	loadRoots := func() ([]*x509.Certificate, error) {
+		return loadX509TrustStores(ctx, outcome.EnvelopeContent.SignerInfo.SignedAttributes.SigningScheme, policyName, trustStores, v.trustStore)
+	}
+	trustCerts, err := loadRoots()
+	var authenticityResult *notation.ValidationResult
+	if err != nil {
+		authenticityResult = &notation.ValidationResult{
+			Error:  err,
+			Type:   trustpolicy.TypeAuthenticity,
+			Action: outcome.VerificationLevel.Enforcement[trustpolicy.TypeAuthenticity],
+		}
+	} else {
+		// verify authenticity
+		authenticityResult = verifyAuthenticity(trustCerts, outcome)
+	}
+"""
+# blob statement selection in a helper (the shape of benign/out-C07/4)
+BLOB_SEL = """	var trustPolicy *trustpolicy.BlobTrustPolicy
+	var err error
+	if opts.TrustPolicyName == "" {
+		trustPolicy, err = v.blobTrustPolicyDoc.GetGlobalTrustPolicy()
+	} else {
+		trustPolicy, err = v.blobTrustPolicyDoc.GetApplicableTrustPolicy(opts.TrustPolicyName)
+	}
+"""
+BLOB_SEL_CALL = "\ttrustPolicy, err := v.selectBlobTrustPolicy(opts.TrustPolicyName)\n"
+BLOB_SEL_FN = """
+func (v *verifier) selectBlobTrustPolicy(name string) (*trustpolicy.BlobTrustPolicy, error) {
+	if name == "" {
+		return v.blobTrustPolicyDoc.GetGlobalTrustPolicy()
+	}
+	return v.blobTrustPolicyDoc.GetApplicableTrustPolicy(name)
+}
+"""
+# selection helper with one exit and a switch, taking the document as a parameter
+BLOB_SEL_CALL2 = "\ttrustPolicy, err := blobStatement(v.blobTrustPolicyDoc, opts.TrustPolicyName)\n"
+BLOB_SEL_FN2 = """
+func blobStatement(doc *trustpolicy.BlobDocument, name string) (statement *trustpolicy.BlobTrustPolicy, err error) {
+	switch name {
+	case "":
+		statement, err = doc.GetGlobalTrustPolicy()
+	default:
+		statement, err = doc.GetApplicableTrustPolicy(name)
+	}
+	return statement, err
+}
+"""
+OCI_CALL = 'err = v.processSignature(ctx, signature, envelopeMediaType, trustPolicy.Name, trustPolicy.TrustedIdentities, trustPolicy.TrustStores, trustPolicy.SignatureVerification, pluginConfig, outcome)'
+BLOB_CALL = 'err = v.processSignature(ctx, signature, opts.SignatureMediaType, trustPolicy.Name, trustPolicy.TrustedIdentities, trustPolicy.TrustStores, trustPolicy.SignatureVerification, opts.PluginConfig, outcome)'
+VA_ANCHOR = 'func verifyAuthenticity(trustCerts []*x509.Certificate, outcome *notation.VerificationOutcome) *notation.ValidationResult {\n'
+TS_CALL = 'authenticTimestampResult := verifyAuthenticTimestamp(ctx, policyName, trustStores, signatureVerification, v.trustStore, v.revocationTimestampingValidator, outcome)'
+
+def ctor(va, load=LOAD_CTOR, ctorsrc=CTOR):
+    return [(V, VA_FN, va + ctorsrc), (V, LOAD_BLOCK, load)]
+
+SECOND_PASS = [
+ # --- class: result object built by a constructor function / one exit with an error local -------------------------------
+ dict(name='benign-ctor-multi-exit', expect='silent', edits=ctor(VA_CTOR_MULTI)),
+ dict(name='benign-ctor-single-exit-nil-arm', expect='silent', edits=ctor(VA_CTOR_SINGLE)),
+ dict(name='benign-ctor-delegating-one-exit', expect='silent', edits=ctor(VA_CTOR2_ONE_EXIT, LOAD_CTOR.replace('newValidationResult(outcome, trustpolicy.TypeAuthenticity, err)', 'authenticityResultOf(outcome, err)'), CTOR2)),
+ dict(name='benign-literal-one-exit-error-local', expect='silent', edits=[(V, VA_FN, VA_LIT_ONE_EXIT)]),
+ dict(name='benign-ctor-chain-helper', expect='silent', edits=ctor(VA_CHAIN_HELPER)),
+ dict(name='ctor-empty-set-passes', expect='flagged(authenticity/empty-set-fails)', edits=ctor(VA_CTOR_MULTI.replace('if len(trustCerts) < 1 {', 'if trustCerts == nil {'))),
+ dict(name='ctor-single-exit-verify-error-dropped', expect='flagged(authenticity/verify-error-fails)',
+      edits=ctor(VA_CTOR_SINGLE.replace('\tdefault:\n\t\terr = notation.ErrorVerificationInconclusive{Msg: "authenticity verification failed with error : " + err.Error()}\n', '\tdefault:\n\t\terr = nil\n'))),
+ dict(name='ctor-single-exit-no-error-test', expect='flagged(authenticity/verify-error-fails)',
+      edits=ctor(VA_CTOR_SINGLE.replace('\treturn newValidationResult(outcome, trustpolicy.TypeAuthenticity, err)\n}', '\t_ = err\n\treturn newValidationResult(outcome, trustpolicy.TypeAuthenticity, nil)\n}'))),
+ dict(name='ctor-ignores-error', expect='flagged(authenticity/)', edits=ctor(VA_CTOR_MULTI, LOAD_CTOR, CTOR.replace('\t\tError:  err,\n', ''))),
+ dict(name='ctor-stores-error-conditionally', expect='flagged(authenticity/)', edits=ctor(VA_CTOR_MULTI, LOAD_CTOR, """
+func newValidationResult(outcome *notation.VerificationOutcome, resultType trustpolicy.ValidationType, err error) *notation.ValidationResult {
+	r := &notation.ValidationResult{
+		Type:   resultType,
+		Action: outcome.VerificationLevel.Enforcement[resultType],
+	}
+	if r.Action == trustpolicy.ActionEnforce {
+		r.Error = err
+	}
+	return r
+}
+""")),
+ dict(name='ctor-load-error-dropped', expect='flagged(authenticity/load-error-is-failure)',
+      edits=ctor(VA_CTOR_MULTI, LOAD_CTOR.replace('newValidationResult(outcome, trustpolicy.TypeAuthenticity, err)', 'newValidationResult(outcome, trustpolicy.TypeAuthenticity, nil)'))),
+ dict(name='ctor-load-error-as-other-type', expect='flagged(authenticity/load-error-is-failure)',
+      edits=ctor(VA_CTOR_MULTI, LOAD_CTOR.replace('newValidationResult(outcome, trustpolicy.TypeAuthenticity, err)', 'newValidationResult(outcome, trustpolicy.TypeExpiry, err)'))),
+ dict(name='ctor-delegating-one-exit-empty-set-passes', expect='flagged(authenticity/empty-set-fails)',
+      edits=ctor(VA_CTOR2_ONE_EXIT.replace('\tif len(trustCerts) == 0 {\n\t\tfailure = notation.ErrorVerificationInconclusive{Msg: "no trusted certificates are found to verify authenticity"}\n\t} else if', '\tif'),
+                 LOAD_CTOR.replace('newValidationResult(outcome, trustpolicy.TypeAuthenticity, err)', 'authenticityResultOf(outcome, err)'), CTOR2)),
+ dict(name='ctor-delegating-swaps-error-away', expect='flagged(authenticity/)',
+      edits=ctor(VA_CTOR2_ONE_EXIT, LOAD_CTOR.replace('newValidationResult(outcome, trustpolicy.TypeAuthenticity, err)', 'authenticityResultOf(outcome, err)'),
+                 CTOR2.replace('return makeResult(err, trustpolicy.TypeAuthenticity, outcome)', 'return makeResult(nil, trustpolicy.TypeAuthenticity, outcome)'))),
+ dict(name='literal-one-exit-auth-error-cleared', expect='flagged(authenticity/verify-error-fails)',
+      edits=[(V, VA_FN, VA_LIT_ONE_EXIT.replace('\t\tfailure = err\n\t\tif _, ok := err.(*signature.SignatureAuthenticityError); !ok {', '\t\tif _, ok := err.(*signature.SignatureAuthenticityError); !ok {'))]),
+ dict(name='literal-one-exit-result-reset', expect='flagged(authenticity/)',
+      edits=[(V, VA_FN, VA_LIT_ONE_EXIT.replace('\treturn &notation.ValidationResult{\n\t\tError:  failure,\n\t\tType:   trustpolicy.TypeAuthenticity,\n\t\tAction: outcome.VerificationLevel.Enforcement[trustpolicy.TypeAuthenticity],\n\t}\n}',
+        '\tresult := &notation.ValidationResult{\n\t\tError:  failure,\n\t\tType:   trustpolicy.TypeAuthenticity,\n\t\tAction: outcome.VerificationLevel.Enforcement[trustpolicy.TypeAuthenticity],\n\t}\n\tif result.Action != trustpolicy.ActionEnforce {\n\t\tresult.Error = nil\n\t}\n\treturn result\n}'))]),
+ dict(name='ctor-chain-helper-swallows', expect='flagged(authenticity/verify-error-fails)',
+      edits=ctor(VA_CHAIN_HELPER.replace('\t_, err := signature.VerifyAuthenticity(signerInfo, roots)\n\treturn err\n', '\t_, _ = signature.VerifyAuthenticity(signerInfo, roots)\n\treturn nil\n'))),
+ # --- class: extract-helper at another boundary (authenticity step, forwarding layers, closure) --------------------------
+ dict(name='benign-step-extracted', expect='silent', edits=[(V, LOAD_BLOCK, STEP_CALL), (V, VA_ANCHOR, STEP_FN.lstrip('\n') + '\n' + VA_ANCHOR)]),
+ dict(name='benign-step-and-forwarder', expect='silent', edits=[(V, LOAD_BLOCK, STEP2_CALL), (V, VA_ANCHOR, STEP2_FN.lstrip('\n') + '\n' + VA_ANCHOR)]),
+ dict(name='benign-forwarder-wraps-error', expect='silent', edits=[(V, LOAD_BLOCK, STEP2_CALL), (V, VA_ANCHOR, STEP2_FN_WRAP.lstrip('\n') + '\n' + VA_ANCHOR)]),
+ dict(name='benign-load-in-closure', expect='silent', edits=[(V, LOAD_BLOCK, LOAD_CLOSURE)]),
+ dict(name='step-extracted-other-statement', expect='flagged(scoping/one-statement)',
+      edits=[(V, LOAD_BLOCK, STEP_CALL), (V, VA_ANCHOR, STEP_FN.lstrip('\n') + '\n' + VA_ANCHOR),
+             (V, OCI_CALL, OCI_CALL.replace('trustPolicy.TrustStores', 'v.ociTrustPolicyDoc.TrustPolicies[0].TrustStores'))]),
+ dict(name='step-extracted-extra-store', expect='flagged(scoping/loader-gets-statement-stores)',
+      edits=[(V, LOAD_BLOCK, STEP_CALL), (V, VA_ANCHOR, STEP_FN.replace('loadX509TrustStores(ctx, scheme, policyName, trustStores, v.trustStore)', 'loadX509TrustStores(ctx, scheme, policyName, append(trustStores, "ca:default"), v.trustStore)').lstrip('\n') + '\n' + VA_ANCHOR)]),
+ dict(name='step-extracted-load-error-ignored', expect='flagged(authenticity/)',
+      edits=[(V, LOAD_BLOCK, STEP_CALL), (V, VA_ANCHOR, STEP_FN.replace('\tif err != nil {\n\t\treturn &notation.ValidationResult{\n\t\t\tError:  err,\n\t\t\tType:   trustpolicy.TypeAuthenticity,\n\t\t\tAction: outcome.VerificationLevel.Enforcement[trustpolicy.TypeAuthenticity],\n\t\t}\n\t}\n', '\t_ = err\n').lstrip('\n') + '\n' + VA_ANCHOR)]),
+ dict(name='step-extracted-scheme-from-caller', expect='flagged(mapping/scheme-provenance)',
+      edits=[(V, LOAD_BLOCK, STEP_CALL), (V, VA_ANCHOR, STEP_FN.replace('scheme := outcome.EnvelopeContent.SignerInfo.SignedAttributes.SigningScheme', 'scheme := signature.SigningScheme(policyName)').lstrip('\n') + '\n' + VA_ANCHOR)]),
+ dict(name='forwarder-swallows-load-error', expect='flagged(authenticity/)',
+      edits=[(V, LOAD_BLOCK, STEP2_CALL), (V, VA_ANCHOR, STEP2_FN_WRAP.replace('\tif err != nil {\n\t\treturn nil, fmt.Errorf("trust stores of statement %q: %w", statementName, err)\n\t}\n', '\t_ = err\n').lstrip('\n') + '\n' + VA_ANCHOR)]),
+ dict(name='forwarder-adds-certificates', expect='flagged(authenticity/)',
+      edits=[(V, LOAD_BLOCK, STEP2_CALL), (V, VA_ANCHOR, STEP2_FN_WRAP.replace('\treturn roots, nil\n', '\treturn append(roots, outcome.EnvelopeContent.SignerInfo.CertificateChain...), nil\n').lstrip('\n') + '\n' + VA_ANCHOR)]),
+ dict(name='closure-loads-other-stores', expect='flagged(scoping/)',
+      edits=[(V, LOAD_BLOCK, LOAD_CLOSURE.replace('policyName, trustStores, v.trustStore)\n\t}', 'policyName, trustStores, v.trustStore)\n\t}\n\ttrustStores = v.ociTrustPolicyDoc.TrustPolicies[0].TrustStores'))]),
+ dict(name='certs-mixed-before-verify', expect='flagged(authenticity/certs-from-loader)',
+      find='\t\tauthenticityResult = verifyAuthenticity(trustCerts, outcome)\n', file=V,
+      replace='\t\tauthenticityResult = verifyAuthenticity(append(trustCerts, outcome.EnvelopeContent.SignerInfo.CertificateChain...), outcome)\n'),
+ # --- class: statement selection behind a helper; fields of one statement ----------------------------------------------------
+ dict(name='benign-blob-selection-helper', expect='silent', edits=[(V, BLOB_SEL, BLOB_SEL_CALL), (V, VA_ANCHOR, BLOB_SEL_FN.lstrip('\n') + '\n' + VA_ANCHOR)]),
+ dict(name='benign-blob-selection-helper-one-exit', expect='silent', edits=[(V, BLOB_SEL, BLOB_SEL_CALL2), (V, VA_ANCHOR, BLOB_SEL_FN2.lstrip('\n') + '\n' + VA_ANCHOR)]),
+ dict(name='benign-statement-fields-in-locals', expect='silent', file=V, find=OCI_CALL,
+      replace='statementName, stores := trustPolicy.Name, trustPolicy.TrustStores\n\t' + OCI_CALL.replace('trustPolicy.Name', 'statementName').replace('trustPolicy.TrustStores', 'stores')),
+ dict(name='blob-selection-helper-first-statement', expect='flagged(scoping/one-statement)',
+      edits=[(V, BLOB_SEL, BLOB_SEL_CALL), (V, VA_ANCHOR, BLOB_SEL_FN.replace('\t\treturn v.blobTrustPolicyDoc.GetGlobalTrustPolicy()\n', '\t\treturn &v.blobTrustPolicyDoc.TrustPolicies[0], nil\n').lstrip('\n') + '\n' + VA_ANCHOR)]),
+ dict(name='blob-selection-helper-one-exit-fallback', expect='flagged(scoping/one-statement)',
+      edits=[(V, BLOB_SEL, BLOB_SEL_CALL2), (V, VA_ANCHOR, BLOB_SEL_FN2.replace('\treturn statement, err\n', '\tif err != nil && len(doc.TrustPolicies) > 0 {\n\t\tstatement, err = &doc.TrustPolicies[0], nil\n\t}\n\treturn statement, err\n').lstrip('\n') + '\n' + VA_ANCHOR)]),
+ dict(name='identities-of-other-statement', expect='flagged(scoping/one-statement)', file=V, find=OCI_CALL,
+      replace=OCI_CALL.replace('trustPolicy.TrustedIdentities', 'v.ociTrustPolicyDoc.TrustPolicies[0].TrustedIdentities')),
+ dict(name='blob-stores-of-other-statement', expect='flagged(scoping/one-statement)', file=V, find=BLOB_CALL,
+      replace=BLOB_CALL.replace('trustPolicy.TrustStores', 'v.blobTrustPolicyDoc.TrustPolicies[0].TrustStores')),
+ dict(name='tsa-stores-of-other-statement', expect='flagged(scoping/)', file=V, find=TS_CALL,
+      replace=TS_CALL.replace('policyName, trustStores, signatureVerification', 'policyName, v.ociTrustPolicyDoc.TrustPolicies[0].TrustStores, signatureVerification')),
+ dict(name='stores-from-exported-entry', expect='flagged(scoping/)', file=V, find=OCI_CALL,
+      replace=OCI_CALL.replace('trustPolicy.TrustStores', 'strings.Split(opts.UserMetadata["stores"], ",")')),
+]
+
+
+# ---- loader: the body of the per-entry loop as a function of its own; certificates appended one by one ---------------------
+LOOP = """	for _, trustStore := range trustStores {
+		if processedStoreSet.Contains(trustStore) {
+			// we loaded this trust store already
+			continue
+		}
+
+		storeType, name, found := strings.Cut(trustStore, ":")
+		if !found {
+			return nil, truststore.TrustStoreError{Msg: fmt.Sprintf("error while loading the trust store, trust policy statement %q is missing separator in trust store value %q. The required format is <TrustStoreType>:<TrustStoreName>", policyName, trustStore)}
+		}
+		if trustStoreType != truststore.Type(storeType) {
+			continue
+		}
+
+		certs, err := x509TrustStore.GetCertificates(ctx, trustStoreType, name)
+		if err != nil {
+			return nil, err
+		}
+		certificates = append(certificates, certs...)
+		processedStoreSet.Add(trustStore)
+	}
+	return certificates, nil
+}
+"""
+LOOP_INNER = """		storeType, name, found := strings.Cut(trustStore, ":")
+		if !found {
+			return nil, truststore.TrustStoreError{Msg: fmt.Sprintf("error while loading the trust store, trust policy statement %q is missing separator in trust store value %q. The required format is <TrustStoreType>:<TrustStoreName>", policyName, trustStore)}
+		}
+		if trustStoreType != truststore.Type(storeType) {
+			continue
+		}
+
+		certs, err := x509TrustStore.GetCertificates(ctx, trustStoreType, name)
+		if err != nil {
+			return nil, err
+		}
+"""
+ENTRY_CALL = """		certs, err := loadListedStore(ctx, trustStoreType, policyName, trustStore, x509TrustStore)
+		if err != nil {
+			return nil, err
+		}
+"""
+ENTRY_FN = """
+func loadListedStore(ctx context.Context, wanted truststore.Type, policyName string, listed string, x509TrustStore truststore.X509TrustStore) ([]*x509.Certificate, error) {
+	storeType, name, found := strings.Cut(listed, ":")
+	if !found {
+		return nil, truststore.TrustStoreError{Msg: fmt.Sprintf("error while loading the trust store, trust policy statement %q is missing separator in trust store value %q. The required format is <TrustStoreType>:<TrustStoreName>", policyName, listed)}
+	}
+	if wanted != truststore.Type(storeType) {
+		return nil, nil
+	}
+	return x509TrustStore.GetCertificates(ctx, wanted, name)
+}
+"""
+# other parameter order, guard nested the other way round, error wrapped
+ENTRY_CALL2 = """		certs, err := certificatesOf(ctx, x509TrustStore, trustStore, trustStoreType, policyName)
+		if err != nil {
+			return nil, err
+		}
+"""
+ENTRY_FN2 = """
+func certificatesOf(ctx context.Context, x509TrustStore truststore.X509TrustStore, entry string, wanted truststore.Type, statement string) ([]*x509.Certificate, error) {
+	prefix, name, found := strings.Cut(entry, ":")
+	if !found {
+		return nil, truststore.TrustStoreError{Msg: fmt.Sprintf("error while loading the trust store, trust policy statement %q is missing separator in trust store value %q. The required format is <TrustStoreType>:<TrustStoreName>", statement, entry)}
+	}
+	if truststore.Type(prefix) == wanted {
+		certs, err := x509TrustStore.GetCertificates(ctx, wanted, name)
+		if err != nil {
+			return nil, fmt.Errorf("trust store %q: %w", entry, err)
+		}
+		return certs, nil
+	}
+	return nil, nil
+}
+"""
+def entry(call=ENTRY_CALL, fn=ENTRY_FN, loop=None):
+    l = LOOP.replace(LOOP_INNER, call)
+    if loop: l = loop(l)
+    return [(H, LOOP, l + fn)]
+ONE_BY_ONE = '\t\tfor _, cert := range certs {\n\t\t\tcertificates = append(certificates, cert)\n\t\t}\n'
+# ---- mapping: the switch written as a table -----------------------------------------------------------------------------
+MAPPING = """	var typeToLoad truststore.Type
+	switch scheme {
+	case signature.SigningSchemeX509:
+		typeToLoad = truststore.TypeCA
+	case signature.SigningSchemeX509SigningAuthority:
+		typeToLoad = truststore.TypeSigningAuthority
+	default:
+		return nil, truststore.TrustStoreError{Msg: fmt.Sprintf("error while loading the trust store, unrecognized signing scheme %q", scheme)}
+	}
+	return loadX509TrustStoresWithType(ctx, typeToLoad, policyName, trustStores, x509TrustStore)
+}
+"""
+TABLE = """	typeToLoad, ok := storeTypeOfScheme[scheme]
+	if !ok {
+		return nil, truststore.TrustStoreError{Msg: fmt.Sprintf("error while loading the trust store, unrecognized signing scheme %q", scheme)}
+	}
+	return loadX509TrustStoresWithType(ctx, typeToLoad, policyName, trustStores, x509TrustStore)
+}
+
+var storeTypeOfScheme = map[signature.SigningScheme]truststore.Type{
+	signature.SigningSchemeX509:                 truststore.TypeCA,
+	signature.SigningSchemeX509SigningAuthority: truststore.TypeSigningAuthority,
+}
+"""
+
+THIRD = [
+ dict(name='benign-entry-loader', expect='silent', edits=entry()),
+ dict(name='benign-entry-loader-reordered-wrapping', expect='silent', edits=entry(ENTRY_CALL2, ENTRY_FN2)),
+ dict(name='benign-append-one-by-one', expect='silent', file=H, find='\t\tcertificates = append(certificates, certs...)\n', replace=ONE_BY_ONE),
+ dict(name='benign-entry-loader-append-one-by-one', expect='silent', edits=entry(loop=lambda l: l.replace('\t\tcertificates = append(certificates, certs...)\n', ONE_BY_ONE))),
+ dict(name='entry-loader-swallows-error', expect='flagged(loader/entry-loader-forwards)',
+      edits=entry(ENTRY_CALL2, ENTRY_FN2.replace('\t\tif err != nil {\n\t\t\treturn nil, fmt.Errorf("trust store %q: %w", entry, err)\n\t\t}\n', '\t\t_ = err\n'))),
+ dict(name='entry-loader-adds-certificates', expect='flagged(loader/entry-loader-forwards)',
+      edits=entry(ENTRY_CALL2, ENTRY_FN2.replace('\t\treturn certs, nil\n', '\t\tmore, _ := x509.SystemCertPool()\n\t\t_ = more\n\t\treturn append(certs, certs...), nil\n'))),
+ dict(name='entry-loader-no-type-filter', expect='flagged(loader/type-filter)',
+      edits=entry(fn=ENTRY_FN.replace('\tif wanted != truststore.Type(storeType) {\n\t\treturn nil, nil\n\t}\n', '\t_ = storeType\n'))),
+ dict(name='entry-loader-type-from-listing', expect='flagged(loader/type-argument)',
+      edits=entry(fn=ENTRY_FN.replace('GetCertificates(ctx, wanted, name)', 'GetCertificates(ctx, truststore.Type(storeType), name)'))),
+ dict(name='entry-loader-given-other-entry', expect='flagged(loader/name-argument)',
+      edits=entry(ENTRY_CALL.replace('policyName, trustStore, x509TrustStore)', 'policyName, "ca:"+policyName, x509TrustStore)'))),
+ dict(name='entry-loader-given-fixed-type', expect='flagged(mapping/)',
+      edits=entry(ENTRY_CALL.replace('loadListedStore(ctx, trustStoreType, policyName', 'loadListedStore(ctx, truststore.Type(policyName), policyName'))),
+ dict(name='entry-loader-caller-skips-failed-store', expect='flagged(loader/load-error-fail-closed)',
+      edits=entry(ENTRY_CALL.replace('\t\tif err != nil {\n\t\t\treturn nil, err\n\t\t}\n', '\t\tif err != nil {\n\t\t\tcontinue\n\t\t}\n'))),
+ dict(name='entry-loader-exported', expect='flagged(loader/name-argument)',
+      edits=entry(ENTRY_CALL.replace('loadListedStore(', 'LoadListedStore('), ENTRY_FN.replace('func loadListedStore(', 'func LoadListedStore('))),
+ dict(name='append-one-by-one-foreign', expect='flagged(loader/appended-only-from-stores)', file=H, find='\t\tcertificates = append(certificates, certs...)\n',
+      replace='\t\tfor i := range certs {\n\t\t\tcertificates = append(certificates, certs[i], certificates[0])\n\t\t}\n'),
+ dict(name='benign-mapping-table', expect='silent', edits=[(H, MAPPING, TABLE)]),
+ dict(name='mapping-table-swapped', expect='flagged(mapping/)',
+      edits=[(H, MAPPING, TABLE.replace('signature.SigningSchemeX509:                 truststore.TypeCA', 'signature.SigningSchemeX509:                 truststore.TypeSigningAuthority').replace('signature.SigningSchemeX509SigningAuthority: truststore.TypeSigningAuthority', 'signature.SigningSchemeX509SigningAuthority: truststore.TypeCA'))]),
+ dict(name='mapping-table-extra-scheme', expect='flagged(mapping/ca)',
+      edits=[(H, MAPPING, TABLE.replace('\tsignature.SigningSchemeX509SigningAuthority: truststore.TypeSigningAuthority,\n', '\tsignature.SigningSchemeX509SigningAuthority: truststore.TypeSigningAuthority,\n\t"":                                          truststore.TypeCA,\n'))]),
+ dict(name='mapping-table-no-ok-test', expect='flagged(mapping/)',
+      edits=[(H, MAPPING, TABLE.replace('\ttypeToLoad, ok := storeTypeOfScheme[scheme]\n\tif !ok {\n', '\ttypeToLoad, ok := storeTypeOfScheme[scheme]\n\tif !ok && policyName == "" {\n'))]),
+ dict(name='mapping-table-written-elsewhere', expect='flagged(mapping/)',
+      edits=[(H, MAPPING, TABLE + '\nfunc RegisterScheme(scheme signature.SigningScheme, storeType truststore.Type) {\n\tstoreTypeOfScheme[scheme] = storeType\n}\n')]),
+]
+
+
+VA_LIT_REUSED_ERR = """func verifyAuthenticity(trustCerts []*x509.Certificate, outcome *notation.VerificationOutcome) *notation.ValidationResult {
+	if len(trustCerts) < 1 {
+		return &notation.ValidationResult{
+			Error:  notation.ErrorVerificationInconclusive{Msg: "no trusted certificates are found to verify authenticity"},
+			Type:   trustpolicy.TypeAuthenticity,
+			Action: outcome.VerificationLevel.Enforcement[trustpolicy.TypeAuthenticity],
+		}
+	}
+	_, err := signature.VerifyAuthenticity(&outcome.EnvelopeContent.SignerInfo, trustCerts)
+	if err != nil {
+		if _, ok := err.(*signature.SignatureAuthenticityError); !ok {
+			err = notation.ErrorVerificationInconclusive{Msg: "authenticity verification failed with error : " + err.Error()}
+		}
+	}
+	return &notation.ValidationResult{
+		Error:  err,
+		Type:   trustpolicy.TypeAuthenticity,
+		Action: outcome.VerificationLevel.Enforcement[trustpolicy.TypeAuthenticity],
+	}
+}
+"""
+FOURTH = [
+ dict(name='benign-literal-two-exits-error-reused', expect='silent', edits=[(V, VA_FN, VA_LIT_REUSED_ERR)]),
+ dict(name='literal-two-exits-unexpected-error-cleared', expect='flagged(authenticity/verify-error-fails)',
+      edits=[(V, VA_FN, VA_LIT_REUSED_ERR.replace('\t\t\terr = notation.ErrorVerificationInconclusive{Msg: "authenticity verification failed with error : " + err.Error()}\n', '\t\t\terr = nil\n'))]),
+]
+
+
+# the statement handed on whole to an intermediate method (parameter widened)
+WHOLE_CALL = 'err = v.processStatement(ctx, signature, envelopeMediaType, trustPolicy, pluginConfig, outcome)'
+WHOLE_FN = """
+func (v *verifier) processStatement(ctx context.Context, sigBlob []byte, mediaType string, statement *trustpolicy.TrustPolicy, pluginConfig map[string]string, outcome *notation.VerificationOutcome) error {
+	return v.processSignature(ctx, sigBlob, mediaType, statement.Name, statement.TrustedIdentities, statement.TrustStores, statement.SignatureVerification, pluginConfig, outcome)
+}
+"""
+FIFTH = [
+ dict(name='benign-statement-handed-whole', expect='silent', edits=[(V, OCI_CALL, WHOLE_CALL), (V, VA_ANCHOR, WHOLE_FN.lstrip('\n') + '\n' + VA_ANCHOR)]),
+ dict(name='statement-handed-whole-not-selected', expect='flagged(scoping/one-statement)',
+      edits=[(V, OCI_CALL, WHOLE_CALL.replace('trustPolicy, pluginConfig', '&v.ociTrustPolicyDoc.TrustPolicies[0], pluginConfig')), (V, VA_ANCHOR, WHOLE_FN.lstrip('\n') + '\n' + VA_ANCHOR)]),
+ dict(name='statement-handed-whole-stores-of-other', expect='flagged(scoping/one-statement)',
+      edits=[(V, OCI_CALL, WHOLE_CALL), (V, VA_ANCHOR, WHOLE_FN.replace('statement.TrustStores', 'v.ociTrustPolicyDoc.TrustPolicies[0].TrustStores').lstrip('\n') + '\n' + VA_ANCHOR)]),
+]
+
 VARIANTS = [
  dict(name='type-filter-removed', file=H, expect='flagged(loader/type-filter)',
       find='\t\tif trustStoreType != truststore.Type(storeType) {\n\t\t\tcontinue\n\t\t}\n', replace='\t\t_ = storeType\n'),
@@ -79,4 +613,7 @@ VARIANTS = [
  dict(name='benign-wrap-error', file=H, expect='silent',
       find='\t\tif err != nil {\n\t\t\treturn nil, err\n\t\t}\n\t\tcertificates = append(certificates, certs...)',
       replace='\t\tif err != nil {\n\t\t\treturn nil, fmt.Errorf("store %s: %w", name, err)\n\t\t}\n\t\tcertificates = append(certificates, certs...)'),
-]
+
+ # ---- second pass: shapes accepted by class (extra_c03.go) -------------------------------------------------------------
+] + SECOND_PASS + THIRD + FOURTH + FIFTH
+
